@@ -13,6 +13,7 @@
 //! `Message::from_vec` accepts and `to_vec` re-encodes: the re-encoding decodes to the same
 //! message, and RDATA of types whose names are not compressible is identical octet for octet.
 
+mod audit;
 mod ext;
 
 use c01::alphabet::{compressible_type, hn, labels, rdata_alphabet, record_alphabet, wn, Entry as AEntry, Rec};
@@ -31,8 +32,9 @@ use vref::wire;
 // ------------------------------------------------------------------------------------------
 // deep comparison (hickory's PartialEq ignores TTLs and the case of names)
 
-fn name_eq(a: &Name, b: &Name) -> bool {
-    a.eq_case(b) && a.is_fqdn() == b.is_fqdn()
+/// `ci`: an encoding mode that folds case by design (DNSSEC canonical form, lower-case names) is being judged
+fn name_eq(a: &Name, b: &Name, ci: bool) -> bool {
+    (if ci { a == b } else { a.eq_case(b) }) && a.is_fqdn() == b.is_fqdn()
 }
 
 /// IANA number of a class variant (own table: hickory's conversion is part of what is checked).
@@ -55,8 +57,8 @@ fn rcode_eq(a: ResponseCode, b: ResponseCode) -> bool {
     alias(a) == alias(b)
 }
 
-fn record_diff(a: &Record, b: &Record) -> Option<&'static str> {
-    if !name_eq(&a.name, &b.name) {
+fn record_diff(a: &Record, b: &Record, ci: bool) -> Option<&'static str> {
+    if !name_eq(&a.name, &b.name, ci) {
         return Some("owner");
     }
     if a.record_type() != b.record_type() {
@@ -71,21 +73,25 @@ fn record_diff(a: &Record, b: &Record) -> Option<&'static str> {
     if a.data != b.data {
         return Some("rdata");
     }
-    if !rdata_names_eq_case(&a.data, &b.data) {
+    if !ci && !rdata_names_eq_case(&a.data, &b.data) {
         return Some("rdata-name-case");
     }
     None
 }
 
-fn section_diff(a: &[Record], b: &[Record]) -> Option<&'static str> {
+fn section_diff(a: &[Record], b: &[Record], ci: bool) -> Option<&'static str> {
     if a.len() != b.len() {
         return Some("count");
     }
-    a.iter().zip(b.iter()).find_map(|(x, y)| record_diff(x, y))
+    a.iter().zip(b.iter()).find_map(|(x, y)| record_diff(x, y, ci))
 }
 
 /// First field in which two messages differ ("<section>:<field>"), `None` if equal.
 fn message_diff(a: &Message, b: &Message, derived_rcode_high: bool) -> Option<String> {
+    message_diff_ci(a, b, derived_rcode_high, false)
+}
+
+fn message_diff_ci(a: &Message, b: &Message, derived_rcode_high: bool, ci: bool) -> Option<String> {
     let (x, y) = (&a.metadata, &b.metadata);
     let hdr = [
         ("id", x.id != y.id),
@@ -106,7 +112,7 @@ fn message_diff(a: &Message, b: &Message, derived_rcode_high: bool) -> Option<St
         return Some("question:count".into());
     }
     for (p, q) in a.queries.iter().zip(b.queries.iter()) {
-        if !name_eq(&p.name, &q.name) {
+        if !name_eq(&p.name, &q.name, ci) {
             return Some("question:name".into());
         }
         if p.query_type != q.query_type || p.query_class != q.query_class {
@@ -114,7 +120,7 @@ fn message_diff(a: &Message, b: &Message, derived_rcode_high: bool) -> Option<St
         }
     }
     for (sec, p, q) in [("answer", &a.answers, &b.answers), ("authority", &a.authorities, &b.authorities), ("additional", &a.additionals, &b.additionals)] {
-        if let Some(f) = section_diff(p, q) {
+        if let Some(f) = section_diff(p, q, ci) {
             return Some(format!("{sec}:{f}"));
         }
     }
@@ -141,7 +147,7 @@ fn message_diff(a: &Message, b: &Message, derived_rcode_high: bool) -> Option<St
     match (&a.signature, &b.signature) {
         (None, None) => {}
         (Some(p), Some(q)) => {
-            if !name_eq(&p.name, &q.name) {
+            if !name_eq(&p.name, &q.name, ci) {
                 return Some("tsig:name".into());
             }
             if p.dns_class != q.dns_class || p.ttl != q.ttl {
@@ -313,23 +319,52 @@ impl Spec {
 }
 
 /// Judge one assembled message. `exp`: per section the records with their RFC RDATA.
-fn judge_d1(m: &Message, exp: &[Vec<XRec>; 3], meta: Option<&MetaExpect>, l: &mut Local, case: &dyn Fn() -> Value) {
-    l.eval();
+/// What else is done with an assembled message besides the default `Message::to_vec` round trip.
+#[derive(Clone, Copy, PartialEq, Eq)]
+enum Depth {
+    /// default encoding only
+    Default,
+    /// + every other producer / encoder mode, + the reference-produced octets in every layout
+    Full,
+}
+
+fn judge_d1_depth(m: &Message, exp: &[Vec<XRec>; 3], meta: Option<&MetaExpect>, depth: Depth, l: &mut Local, case: &dyn Fn() -> Value) {
     let bytes = match catch(|| m.to_vec()) {
-        Err(p) => return l.violation(&format!("panic:{}", vcore::short_loc(&p.loc)), &format!("encoder panicked: {}", p.msg), case),
-        Ok(Err(e)) => return l.violation("encode-failed", &format!("a valid message does not encode: {e}"), case),
+        Err(p) => {
+            l.eval();
+            return l.violation(&format!("panic:{}", vcore::short_loc(&p.loc)), &format!("encoder panicked: {}", p.msg), case);
+        }
+        Ok(Err(e)) => {
+            l.eval();
+            return l.violation("encode-failed", &format!("a valid message does not encode: {e}"), case);
+        }
         Ok(Ok(b)) => b,
     };
+    judge_d1_bytes(m, &bytes, exp, meta, &audit::DEFAULT_MODE, l, case);
+    if depth == Depth::Full {
+        audit::judge_producers(m, &bytes, exp, meta, l, case);
+        if let Some(meta) = meta {
+            audit::judge_ref(m, exp, meta, l, case);
+        }
+    }
+}
+
+/// Judge the octets one encoding path (`mode`) produced for the assembled message `m`.
+fn judge_d1_bytes(m: &Message, bytes: &[u8], exp: &[Vec<XRec>; 3], meta: Option<&MetaExpect>, mode: &audit::Mode, l: &mut Local, case: &dyn Fn() -> Value) {
+    l.eval();
+    let default_mode = mode.tag == audit::DEFAULT_MODE.tag;
     let wcase = || {
         let mut c = case();
-        c["encoded"] = json!(hex::enc(&bytes));
+        c["encoded"] = json!(hex::enc(bytes));
         c
     };
     // SIG is a meta record like OPT and TSIG: outside the additional section the decoder refuses it
     let sig_misplaced = exp[0].iter().chain(exp[1].iter()).any(|x| x.rtype == 24);
+    let (own_ptr, own_lower) = mode.owner_rule();
+    let spelled = |n: &Name| if own_lower { audit::lower_labels(&labels_of(n)) } else { labels_of(n) };
 
     // (a) independent reading of the encoding
-    let w = match wire::walk(&bytes) {
+    let w = match wire::walk(bytes) {
         Ok(w) => w,
         Err(e) => return l.violation("wire:walker-rejects", &format!("reference walker cannot read hickory's encoding: {e:?}"), &wcase),
     };
@@ -346,8 +381,12 @@ fn judge_d1(m: &Message, exp: &[Vec<XRec>; 3], meta: Option<&MetaExpect>, l: &mu
             Some(n) => *n,
             None => (u16::from(q.query_type), class_num(q.query_class)),
         };
-        if wq.name != labels_of(&q.name) || wq.qtype != qt || wq.qclass != qc {
+        let ql = spelled(&q.name);
+        if wq.name != ql || wq.qtype != qt || wq.qclass != qc {
             return l.violation("wire:question", &format!("question on the wire (type {}, class {}) differs from the one assembled (type {qt}, class {qc})", wq.qtype, wq.qclass), &wcase);
+        }
+        if !own_ptr && wq.end - wq.start - 4 != wire_len(&ql) {
+            return l.violation("wire:pointer-in-uncompressed-mode", "a question name is compressed although the encoder mode forbids compression", &wcase);
         }
     }
     let extra_ar = m.edns.is_some() as usize + m.signature.is_some() as usize;
@@ -359,40 +398,52 @@ fn judge_d1(m: &Message, exp: &[Vec<XRec>; 3], meta: Option<&MetaExpect>, l: &mu
         }
         for (wr, x) in secs[s].iter().zip(exp[s].iter()) {
             let r = &x.record;
-            let ol = labels_of(&r.name);
+            let ol = spelled(&r.name);
             if wr.name != ol {
                 return l.violation("wire:owner", &format!("owner on the wire {:?} != assembled {}", wire::name_to_string(&wr.name), r.name), &wcase);
             }
             if wr.rdata_start - 10 - wr.start < wire_len(&ol) {
                 compressed = true;
+                if !own_ptr {
+                    return l.violation("wire:pointer-in-uncompressed-mode", "an owner name is compressed although the encoder mode forbids compression", &wcase);
+                }
             }
             if wr.rtype != x.rtype || wr.class != class_num(r.dns_class) || wr.ttl != r.ttl {
                 return l.violation("wire:fixed-fields", &format!("type/class/ttl on the wire differ for a type {} record", x.rtype), &wcase);
             }
             let raw = &bytes[wr.rdata_start..wr.rdata_end];
+            let (rd_ptr, rd_lower) = mode.rdata_rule(x.rtype);
+            let lowered;
+            let want_wire: &[u8] = if rd_lower {
+                lowered = audit::lower_rdata_names(x.rtype, &x.wire);
+                &lowered
+            } else {
+                &x.wire
+            };
+            let suffix = if default_mode { String::new() } else { format!(":{}", mode.tag) };
             if x.wire.is_empty() {
                 // RFC 2136 empty-RDATA record
                 if !raw.is_empty() {
                     return l.violation("rdata-octets:update-empty", "an empty-RDATA record was encoded with RDATA", &wcase);
                 }
-            } else if compressible_type(x.rtype) {
+            } else if compressible_type(x.rtype) && rd_ptr {
                 if raw.len() < x.wire.len() {
                     compressed = true;
                 }
-                match decompress_rdata(&bytes, x.rtype, wr.rdata_start, wr.rdata_end) {
-                    Some(d) if d == x.wire => {}
+                match decompress_rdata(bytes, x.rtype, wr.rdata_start, wr.rdata_end) {
+                    Some(d) if d == want_wire => {}
                     other => {
                         return l.violation(
-                            &format!("rdata-octets-after-expansion:type{}", x.rtype),
-                            &format!("RDATA {} expands to {:?}, RFC form {}", hex::enc(raw), other.map(|d| hex::enc(&d)), hex::enc(&x.wire)),
+                            &format!("rdata-octets-after-expansion:type{}{suffix}", x.rtype),
+                            &format!("RDATA {} expands to {:?}, RFC form {}", hex::enc(raw), other.map(|d| hex::enc(&d)), hex::enc(want_wire)),
                             &wcase,
                         )
                     }
                 }
-            } else if raw != &x.wire[..] {
+            } else if raw != want_wire {
                 return l.violation(
-                    &format!("rdata-octets:type{}", x.rtype),
-                    &format!("RDATA on the wire {} != RFC form {}", hex::enc(raw), hex::enc(&x.wire)),
+                    &format!("rdata-octets:type{}{suffix}", x.rtype),
+                    &format!("RDATA on the wire {} != RFC form {} (mode {})", hex::enc(raw), hex::enc(want_wire), mode.tag),
                     &wcase,
                 );
             }
@@ -410,31 +461,34 @@ fn judge_d1(m: &Message, exp: &[Vec<XRec>; 3], meta: Option<&MetaExpect>, l: &mu
                 );
             }
         }
-        if let Some((key, what)) = ext::check_meta(&bytes, &w.additionals[exp[2].len()..], meta) {
+        if let Some((key, what)) = ext::check_meta(bytes, &w.additionals[exp[2].len()..], meta, own_lower) {
             return l.violation(&key, &what, &wcase);
         }
     }
 
-    // (b) hickory reads its own encoding back
-    let dec = match catch(|| Message::from_vec(&bytes)) {
+    // (b) hickory reads the encoding back
+    let dec = match catch(|| Message::from_vec(bytes)) {
         Err(_) => return l.outcome("obs:decode-panic(C01)"),
         Ok(Err(e)) => {
             if sig_misplaced {
                 return l.outcome("obs:sig-outside-additional-section-not-decodable");
             }
-            return l.violation("own-encoding-rejected", &format!("Message::from_vec rejects Message::to_vec output: {e}"), &wcase);
+            return l.violation("own-encoding-rejected", &format!("Message::from_vec rejects the output of {}: {e}", mode.tag), &wcase);
         }
         Ok(Ok(d)) => d,
     };
-    if let Some(f) = message_diff(m, &dec, true) {
-        return l.violation(&format!("roundtrip-differs:{f}"), "decode(encode(m)) != m", &wcase);
+    if let Some(f) = message_diff_ci(m, &dec, true, mode.folds_case()) {
+        return l.violation(&format!("roundtrip-differs:{f}"), &format!("decode({}(m)) != m", mode.tag), &wcase);
+    }
+    if !default_mode {
+        return l.outcome("d1:ok:other-producer-or-mode");
     }
     if m.metadata.response_code == ResponseCode::BADVERS && m.metadata.response_code != dec.metadata.response_code {
         l.outcome("obs:rcode-16-decodes-as-BADSIG-not-BADVERS");
     }
     let ext = m.edns.is_some() || m.signature.is_some() || u16::from(m.metadata.response_code) > 15;
     if compressed || ext {
-        l.nontrivial(fnv64(&bytes));
+        l.nontrivial(fnv64(bytes));
     }
     l.outcome(if compressed { "d1:ok:compressed" } else { "d1:ok:plain" });
 }
@@ -810,24 +864,24 @@ fn replay(ctx: &Ctx, case: &Value) {
                 let v = case["variant"].as_str().unwrap_or("");
                 let v = SWEEPS.iter().find(|s| **s == v).copied().unwrap_or("same-owner");
                 let (m, exp) = sweep(v, case["n"].as_u64().unwrap_or(0) as usize);
-                judge_d1(&m, &exp, None, l, &|| case.clone());
+                judge_d1_depth(&m, &exp, None, Depth::Full, l, &|| case.clone());
             }
             "offset" => {
                 let (m, exp) = offset_case(case["variant"].as_u64().unwrap_or(0) as u8, case["target"].as_u64().unwrap_or(0x3fff) as usize);
-                judge_d1(&m, &exp, None, l, &|| case.clone());
+                judge_d1_depth(&m, &exp, None, Depth::Full, l, &|| case.clone());
             }
             "value" => {
                 let v = case["sweep"].as_str().unwrap_or("");
                 if let Some(v) = ext::VALUE_SWEEPS.iter().find(|s| **s == v) {
                     if let Some((m, exp, meta)) = ext::value_case(v, case["i"].as_u64().unwrap_or(0)) {
-                        judge_d1(&m, &exp, Some(&meta), l, &|| case.clone());
+                        judge_d1_depth(&m, &exp, Some(&meta), Depth::Full, l, &|| case.clone());
                     }
                 }
             }
             _ => {
                 let al = Alpha::new(case["thorough"].as_bool().unwrap_or(false));
                 let (m, exp, meta) = Spec::from_json(case).build(&al);
-                judge_d1(&m, &exp, Some(&meta), l, &|| case.clone());
+                judge_d1_depth(&m, &exp, Some(&meta), Depth::Full, l, &|| case.clone());
             }
         }
     });
@@ -861,6 +915,7 @@ fn main() {
          payload sizes / EDNS Z+DO words / EDNS option codes / TSIG error codes, all 256 EDNS versions, ECS source x scope 33x33 (v4) \
          and 129x3 (v6), all 128 DAU subsets, option lengths {0,1,2,255,256,257,4096,32768,65000} x 3 kinds, 0..64 options, TTL 2^k and \
          2^k-1, a 11x6x3x5x2x8x3 TSIG field product; enum values are chosen by IANA tables of the check, not by hickory's conversions. \
+         PRODUCERS AND ENCODER MODES: besides Message::to_vec every message of the 0/1-record product, the header and UPDATE families, all sweeps, one (q, EDNS, TSIG) combination of every 2-record body (thorough: all; and one of every 3-record body) and the boundary values of every value sweep also goes through to_bytes, a second to_vec, emit with name_encoding {Uncompressed, UncompressedLowercase} and canonical_form {false, true} (expected wire form per mode from the mode's documentation and RFC 4034 6.2 / 6840 5.1), the server's MessageResponse emitter (raw question, soa slot), MessageRequest read+emit, an emission split over two encoders (BinEncoder::with_offset), Edns::emit; REFERENCE OCTETS: the same messages assembled WITHOUT hickory (RFC framing, RFC RDATA, RFC 6891 OPT first/last, RFC 8945 TSIG) in 4 layouts (plain; owners + RFC 1035 RDATA names compressed by an independent compressor; every RDATA name compressed; pointer-to-pointer chains) must DECODE to the message assembled through the constructors, then round-trip. \
          Oracle: independent walker reads the encoding completely; ID and flags word, question numbers, owner names (case-sensitive), \
          TYPE/CLASS/TTL and the RFC RDATA octets (after name expansion for NS/CNAME/PTR/MX/SOA) of every record, CLASS/TTL/options of \
          the OPT record (RFC 6891) and the RDATA of the TSIG record (RFC 8945) equal what was assembled; \
@@ -872,7 +927,8 @@ fn main() {
          every 8th seed; thorough: every window of every entry); structure-aware edits (16-bit windows x 8 boundary values; thorough: \
          S-substitutions, truncations) of 17 KiB..64 KiB seeds (quick: one seed, thorough: three) at the first/last 256 octets and \
          0x3f80..0x4080; f6: consistent resizes of every inner length-prefixed field of every RDATA seed to every length of its width (see C01) \
-         and pairs at {0,1,39,40,63,64,255}^2; 22 growth families) that decodes and re-encodes: decode(encode(decode(b))) == decode(b), and \
+         and pairs at {0,1,39,40,63,64,255}^2; f7: boundary patterns {00.., 00..01, 7f ff.., 80 00.., ff..fe, ff..ff} on every window of width 1/2/4/6 \
+         of the fixed parts of every RDATA seed, pairs of windows, windows x {0,1,255} resizes; 22 growth families) that decodes and re-encodes: decode(encode(decode(b))) == decode(b), and \
          RDATA of every type other than NS/CNAME/PTR/MX/SOA/obsolete-1035/OPT is octet-identical (inputs with a compression pointer \
          inside a name that RFC 3597 forbids to compress are logged, not judged). distinct_nontrivial: direction 1 = distinct \
          encodings that contain a compression pointer, EDNS, TSIG or an extended rcode; direction 2 = distinct accepted inputs with at \
@@ -886,6 +942,14 @@ fn main() {
     let al = Alpha::new(thorough);
     ctx.set("rdata_alphabet", json!(al.entries.len()));
     ctx.set("record_alphabet", json!({"compact": al.levels[0].len(), "quick": al.levels[1].len(), "thorough": al.levels[2].len()}));
+
+    // every type code the decoder models with its own variant must be covered by the alphabet
+    let alpha_types: std::collections::BTreeSet<u16> = al.entries.iter().map(|e| e.rtype).collect();
+    let gaps = audit::untyped_gaps(&alpha_types);
+    ctx.set("typed_record_types_without_alphabet_entry", json!(gaps));
+    if !gaps.is_empty() {
+        ctx.machinery_failure(&format!("record types with a dedicated decoder but no alphabet entry: {gaps:?}"));
+    }
 
     // alphabet self-check: constructor-built values and RFC octets denote the same RDATA
     for e in &al.entries {
@@ -916,10 +980,15 @@ fn main() {
         }
         v
     };
-    let run_spec = |s: &Spec, l: &mut Local| {
+    let run_spec_depth = |s: &Spec, depth: Depth, l: &mut Local| {
         let (m, exp, meta) = s.build(&al);
-        judge_d1(&m, &exp, Some(&meta), l, &|| s.to_json(thorough));
+        judge_d1_depth(&m, &exp, Some(&meta), depth, l, &|| s.to_json(thorough));
     };
+    // every producer / encoder mode / reference layout (Depth::Full) is crossed with: all 0- and 1-record
+    // messages x the full question x EDNS x TSIG product, all header / UPDATE cases, all sweeps, the first
+    // (q, edns, tsig) combination of every 2-record body (thorough: every combination, and the 3-record bodies),
+    // the boundary values of every value sweep
+    let run_spec = |s: &Spec, l: &mut Local| run_spec_depth(s, Depth::Full, l);
 
     // bodies of 0, 1, 2 records
     let lvl: u8 = if thorough { 2 } else { 1 };
@@ -952,8 +1021,9 @@ fn main() {
     ctx.par_run(od.space(), 64, |i, l| {
         let d = od.get(i);
         let (s1, s2) = SEC_PAIRS[d[2] as usize];
-        for (q, e, t) in combos(i) {
-            run_spec(&Spec { level: lvl, recs: vec![(d[0] as usize, s1), (d[1] as usize, s2)], q, edns: e, tsig: t, flags: 0x03, ..Default::default() }, l);
+        for (k, (q, e, t)) in combos(i).into_iter().enumerate() {
+            let depth = if thorough || k == 0 { Depth::Full } else { Depth::Default };
+            run_spec_depth(&Spec { level: lvl, recs: vec![(d[0] as usize, s1), (d[1] as usize, s2)], q, edns: e, tsig: t, flags: 0x03, ..Default::default() }, depth, l);
         }
         if i % 100_003 == 7 {
             l.sample(json!({"dir": 1, "family": "two-records", "records": [al.levels[lvl as usize][d[0] as usize].tag, al.levels[lvl as usize][d[1] as usize].tag], "sections": [s1, s2], "combos": combos(i).len()}));
@@ -968,8 +1038,10 @@ fn main() {
             let d = od.get(i);
             let (s1, s2, s3) = SEC_TRIPLES[d[3] as usize];
             let (e, t) = ((i % ne as u64) as i32, (i % nt as u64) as i32);
-            for (q, e, t) in [(1u8, -1, -1), (2, e, t)] {
-                run_spec(&Spec { level: 0, recs: vec![(d[0] as usize, s1), (d[1] as usize, s2), (d[2] as usize, s3)], q, edns: e, tsig: t, flags: 0x01, ..Default::default() }, l);
+            for (k, (q, e, t)) in [(1u8, -1, -1), (2, e, t)].into_iter().enumerate() {
+                // every producer / mode / reference layout on the EDNS+TSIG combination, the default encoding on both
+                let depth = if k == 1 { Depth::Full } else { Depth::Default };
+                run_spec_depth(&Spec { level: 0, recs: vec![(d[0] as usize, s1), (d[1] as usize, s2), (d[2] as usize, s3)], q, edns: e, tsig: t, flags: 0x01, ..Default::default() }, depth, l);
             }
         });
     }
@@ -1044,7 +1116,7 @@ fn main() {
         let d = od.get(i);
         let v = SWEEPS[d[0] as usize];
         let (m, exp) = sweep(v, d[1] as usize);
-        judge_d1(&m, &exp, None, l, &|| json!({"dir": 1, "family": "sweep", "variant": v, "n": d[1]}));
+        judge_d1_depth(&m, &exp, None, Depth::Full, l, &|| json!({"dir": 1, "family": "sweep", "variant": v, "n": d[1]}));
         if d[1] == 200 {
             l.sample(json!({"dir": 1, "family": "sweep", "variant": v, "n": 200, "encoded_len": m.to_vec().map(|b| b.len()).unwrap_or(0)}));
         }
@@ -1063,7 +1135,7 @@ fn main() {
                 }
             }
         }
-        judge_d1(&m, &exp, None, l, &|| json!({"dir": 1, "family": "offset", "variant": d[0], "target": target}));
+        judge_d1_depth(&m, &exp, None, Depth::Full, l, &|| json!({"dir": 1, "family": "offset", "variant": d[0], "target": target}));
     });
 
     // value sweeps: every value of the small fields a message can carry
@@ -1081,7 +1153,18 @@ fn main() {
         let (v, lo, hi) = vitems[k as usize];
         for i in lo..hi {
             match ext::value_case(v, i) {
-                Some((m, exp, meta)) => judge_d1(&m, &exp, Some(&meta), l, &|| json!({"dir": 1, "family": "value", "sweep": v, "i": i})),
+                Some((m, exp, meta)) => {
+                    // other producers / modes / reference layouts at the boundary values of the sweep (thorough: every 16th value too)
+                    let n = ext::value_sweep_size(v);
+                    let edge = i < 320 || i + 64 >= n || i.is_power_of_two() || (i + 1).is_power_of_two() || (thorough && i % 16 == 0);
+                    judge_d1_depth(&m, &exp, Some(&meta), if edge { Depth::Full } else { Depth::Default }, l, &|| json!({"dir": 1, "family": "value", "sweep": v, "i": i}));
+                    // `impl BinEncodable for Edns`: a second emitter of the OPT record
+                    if let (true, Some(e), Some(o)) = (edge, &m.edns, &meta.opt) {
+                        if let Some((key, what)) = ext::check_edns_emit(e, o) {
+                            l.violation(&key, &what, || json!({"dir": 1, "family": "value", "sweep": v, "i": i, "producer": "Edns::emit"}));
+                        }
+                    }
+                }
                 None => l.outcome("d1:value-without-canonical-representation"),
             }
         }
@@ -1207,6 +1290,18 @@ fn main() {
         ctx.machinery_failure("f6: a layout table does not describe its seed RDATA");
     }
 
+    // f7: field-boundary patterns inside the fixed parts of every RDATA seed (see audit.rs)
+    ctx.par_run(rd_seeds.len() as u64, 1, |i, l| {
+        let (tag, rtype, w) = &rd_seeds[i as usize];
+        ctx.watch(l.worker, || format!("f7 {tag}"));
+        let mut t = Tally::default();
+        let n = audit::boundary_family(*rtype, w, thorough, |b| judge_d2(b, false, &mut t, l, &|| json!({"dir": 2, "hex": hex::enc(b), "seed": tag, "family": "f7"})));
+        if let Some(n) = n {
+            *l.outcomes.entry("d2:f7:cases".into()).or_insert(0) += n;
+        }
+        flush(t, "f7", l);
+    });
+
     // f3L: structure-aware single edits of large seeds (17 KiB .. 64 KiB)
     let large = ext::large_seeds(&al, if thorough { &[0, 1, 2] } else { &[0] });
     ctx.set("d2_large_seeds", json!(large.iter().map(|s| json!({"tag": s.tag, "len": s.bytes.len()})).collect::<Vec<_>>()));
@@ -1263,7 +1358,7 @@ fn main() {
     });
 
     // vacuity
-    for k in ["d2:f6:roundtrip-ok", "d2:f6:rejected-by-decoder", "d2:f5:roundtrip-ok", "d2:f5:rejected-by-decoder", "d2:large:roundtrip-ok", "d2:large:rejected-by-decoder", "d2:large:seed-roundtrip-ok", "d1:ok:compressed", "d1:ok:plain", "d2:f1:roundtrip-ok", "d2:f2:roundtrip-ok", "d2:f3:roundtrip-ok", "d2:f4:roundtrip-ok", "d2:f3:seed-roundtrip-ok", "d2:f3:rejected-by-decoder"] {
+    for k in ["d2:f7:roundtrip-ok", "d2:f7:rejected-by-decoder", "d1:ok:other-producer-or-mode", "d1:producer:same-octets", "d1:reference-octets-decode-to-the-assembled-message", "d2:f6:roundtrip-ok", "d2:f6:rejected-by-decoder", "d2:f5:roundtrip-ok", "d2:f5:rejected-by-decoder", "d2:large:roundtrip-ok", "d2:large:rejected-by-decoder", "d2:large:seed-roundtrip-ok", "d1:ok:compressed", "d1:ok:plain", "d2:f1:roundtrip-ok", "d2:f2:roundtrip-ok", "d2:f3:roundtrip-ok", "d2:f4:roundtrip-ok", "d2:f3:seed-roundtrip-ok", "d2:f3:rejected-by-decoder"] {
         if ctx.outcome_count(k) == 0 {
             ctx.machinery_failure(&format!("vacuous run: outcome class {k} never occurred"));
         }
